@@ -135,6 +135,12 @@ private:
   std::mutex callback_lock;
   std::vector<void*> callback_keys;
 
+  // Counts the successful calls to create_sandbox on this object. Owning types
+  // such as sandbox_callback remember the incarnation they were created in, so
+  // that objects which outlive "their" sandbox do not affect a sandbox that was
+  // later re-created in the same rlbox_sandbox object.
+  uint64_t sandbox_incarnation = 0;
+
   void* transition_state = nullptr;
 
   template<typename T>
@@ -304,11 +310,17 @@ private:
    * calling this function henceforth.
    */
   template<typename T_Ret, typename... T_Args>
-  inline void unregister_callback(void* key)
+  inline void unregister_callback(void* key, uint64_t incarnation)
   {
     // Silently swallowing the failure is better here as RAII types may try to
     // cleanup callbacks after sandbox destruction
     if (sandbox_created.load() != Sandbox_Status::CREATED) {
+      return;
+    }
+
+    // The callback was registered with an earlier incarnation of this sandbox
+    // and went away together with it
+    if (incarnation != sandbox_incarnation) {
       return;
     }
 
@@ -411,6 +423,7 @@ public:
     }
 
     if (created) {
+      sandbox_incarnation++;
       sandbox_created.store(Sandbox_Status::CREATED);
       RLBOX_ACQUIRE_UNIQUE_GUARD(lock, sandbox_list_lock);
       sandbox_list.push_back(this);
@@ -446,6 +459,18 @@ public:
         el_ref != sandbox_list.end(),
         "Unexpected state. Destroying a sandbox that was never initialized.");
       sandbox_list.erase(el_ref);
+    }
+
+    // Callback registrations and cached symbol addresses belong to this
+    // incarnation of the sandbox only
+    {
+      std::lock_guard<std::mutex> lock(callback_lock);
+      callback_keys.clear();
+    }
+    {
+      RLBOX_ACQUIRE_UNIQUE_GUARD(lock, func_ptr_cache_lock);
+      func_ptr_map.clear();
+      internal_func_ptr_map.clear();
     }
 
     sandbox_created.store(Sandbox_Status::NOT_CREATED);
@@ -973,7 +998,8 @@ public:
         tainted_func_ptr,
         callback_interceptor,
         callback_trampoline,
-        unique_key);
+        unique_key,
+        sandbox_incarnation);
       return ret;
     }
   }
